@@ -11,3 +11,5 @@ for o in ck.violations(): print('VIOLATION', o.rule, o.construct, '|', o.how[:in
 for o in ck.incompletes(): print('INCOMPLETE', o.rule, o.construct, '|', o.how[:int(os.environ.get('W', 400))])
 for f in ck.floor_failures(): print('FLOOR', f)
 print(len(ck.obs), 'obligations')
+if os.environ.get('NOTES'):
+    for n in getattr(ck, 'notes', []): print('NOTE', n[:int(os.environ.get('W', 400))])
